@@ -320,12 +320,13 @@ Section SimSave.
   (* ---- Tor acknowledged ---- *)
   Lemma rel_after_accept st m sl :
     Rel st m -> loop_facts st sl -> has_empty_list (s_pend (m_st m)) = false ->
+    has_odd_list (s_pend (m_st m)) = false ->
     Rel (with_unsaved sl [])
         {| m_st := {| s_store := apply_entries opts (s_store (m_st m)) (pend_entries (s_pend (m_st m))); s_pend := [] |};
-           m_det := []; m_f1 := false; m_f3 := false; m_fs := m_fs m |}.
+           m_det := []; m_f1 := false; m_f3 := false; m_fs := m_fs m; m_f4 := m_f4 m |}.
   Proof.
-    intros R LF He. pose proof LF as [A [B [HP [HD HL]]]].
-    constructor; cbn [m_st m_det m_f1 m_f3 m_fs s_store s_pend with_unsaved m_parsers m_config m_defaults m_unsaved]; auto.
+    intros R LF He Hodd. pose proof LF as [A [B [HP [HD HL]]]].
+    constructor; cbn [m_st m_det m_f1 m_f3 m_fs m_f4 s_store s_pend with_unsaved m_parsers m_config m_defaults m_unsaved]; auto.
     - rewrite HP. exact (r_pkeys _ _ _ _ R).
     - intros cn k Hin. rewrite HP. exact (r_ptys _ _ _ _ R _ _ Hin).
     - intros cn k Hin. eapply cfg_after_loop; eassumption.
@@ -366,7 +367,11 @@ Section SimSave.
                repeat (apply andb_true_iff in Hcs' as [Hcs' ?]). destruct s; discriminate. }
              destruct s as [|c r] eqn:E; [congruence|]. rewrite <- E in *. rewrite app_nil_r in Hsg.
              eapply synced_comma_text; eassumption.
-        * destruct Hlc as [Hc _]. destruct Hpr as [Hlk [Hf _]].
+        * destruct Hlc as [Hc _]. destruct Hpr as [Hlk [Hpf _]].
+          assert (forallb (fine k) l = true) as Hf.
+          { apply forallb_forall. intros a Ha. apply pfine_fine; [exact (proj1 (forallb_forall _ _) Hpf a Ha)|].
+            pose proof (proj1 (existsb_false_forall _ _) Hodd (cn, IList l) (dget_In _ _ _ Ep)) as X. cbn [snd] in X.
+            exact (proj1 (existsb_false_forall _ _) X a Ha). }
           assert (l <> []) as Hne.
           { intros ->. assert (has_empty_list (s_pend (m_st m)) = true) as X; [|congruence].
             apply existsb_exists. exists (cn, IList []). auto. }
@@ -394,10 +399,10 @@ Section SimSave.
   Lemma rel_after_reject st m sl :
     Rel st m -> loop_facts st sl -> map fst (m_unsaved sl) = map fst (m_unsaved st) ->
     has_empty_list (s_pend (m_st m)) = false ->
-    Rel sl {| m_st := m_st m; m_det := scalar_keys (s_pend (m_st m)); m_f1 := false; m_f3 := false; m_fs := m_fs m |}.
+    Rel sl {| m_st := m_st m; m_det := scalar_keys (s_pend (m_st m)); m_f1 := false; m_f3 := false; m_fs := m_fs m; m_f4 := m_f4 m |}.
   Proof.
     intros R LF Hkeys He. pose proof LF as [A [B [HP [HD HL]]]].
-    constructor; cbn [m_st m_det m_f1 m_f3 m_fs]; auto.
+    constructor; cbn [m_st m_det m_f1 m_f3 m_fs m_f4]; auto.
     - rewrite HP. exact (r_pkeys _ _ _ _ R).
     - intros cn k Hin. rewrite HP. exact (r_ptys _ _ _ _ R _ _ Hin).
     - intros cn k Hin. eapply cfg_after_loop; eassumption.
@@ -427,10 +432,11 @@ Section SimSave.
   Lemma sim_save st m rej st' ob :
     Rel st m -> op_ok opts (OpSave rej) = true ->
     m_f1 (mon_step opts defaults m (OpSave rej)) = false ->
+    m_f4 (mon_step opts defaults m (OpSave rej)) = false ->
     m_step names st (OpSave rej) = Some (st', ob) ->
     step_ok opts defaults st m (OpSave rej) st' ob.
   Proof.
-    intros R Hok Hf1 H. cbn [m_step] in H.
+    intros R Hok Hf1 Hf4 H. cbn [m_step] in H.
     destruct (m_save st rej) as [[[s1 wrote] r]|] eqn:ES; [|discriminate].
     destruct (m_snapshot s1 names) as [[s2 snap]|] eqn:ESn; [|discriminate].
     inversion H. subst st' ob. clear H.
@@ -446,6 +452,7 @@ Section SimSave.
       rewrite EU. split; [|exact R]. cbn [is_nil andb]. exact Hok'.
     - (* something pending *)
       rewrite <- Ep in *. cbn [m_f1] in Hf1. rewrite C1 in Hf1. cbn [orb] in Hf1.
+      cbn [m_f4] in Hf4. apply orb_false_iff in Hf4 as [_ Hf4].
       assert (m_unsaved st <> []) as HUne by (destruct (m_unsaved st); [rewrite Ep in Hk; discriminate|discriminate]).
       unfold m_save in ES. destruct (m_unsaved st) as [|u0 U] eqn:EU; [congruence|]. rewrite <- EU in *.
       destruct (save_loop st (m_unsaved st) []) as [[sl args]|e|] eqn:EL; try discriminate.
@@ -467,14 +474,14 @@ Section SimSave.
           assert (match m_unsaved sl with [] => false | _ :: _ => true end = true) as ->.
           { destruct (m_unsaved sl); [rewrite EU in Hkeys; discriminate|reflexivity]. }
           rewrite N.eqb_refl. cbn [andb]. exact Hok'.
-        * rewrite ?C1, ?C3, ?Hf1. cbn [orb spec_next]. exact R'.
+        * rewrite ?C1, ?C3, ?Hf1. cbn [orb spec_next]. eapply Rel_flags_irrel. exact R'.
       + (* acknowledged *)
         inversion ES. subst s1 wrote r.
-        pose proof (rel_after_accept _ _ _ R LF Hf1) as R'.
+        pose proof (rel_after_accept _ _ _ R LF Hf1 Hf4) as R'.
         destruct (snapshot_sim opts defaults opts_nodup _ _ opts R' (fun c0 k0 Hc => Hc)) as [snap' [Hs Hok']].
         rewrite <- names_eq, ESn in Hs. inversion Hs. subst s2 snap'.
         split.
         * rewrite Hparse, (entries_match_self _ (pend_nodup_ci _ _ R)). cbn [andb with_unsaved m_unsaved]. exact Hok'.
-        * rewrite ?C1, ?C3, ?Hf1. cbn [orb spec_next]. exact R'.
+        * rewrite ?C1, ?C3, ?Hf1. cbn [orb spec_next]. eapply Rel_flags_irrel. exact R'.
   Qed.
 End SimSave.
